@@ -40,7 +40,16 @@ def impl(c):
     dist = c03.distributor(c, tr.Hare(seed=c['hare']) if c.get('hare') is not None else None)
     votes = c03.py_votes(c['votes'])
     if c['form'] == 'selector':
-        res = seq.TransferableVoteSelector(dist).evaluate(votes, c['n'])
+        sel = seq.TransferableVoteSelector(dist)
+        if c.get('hare') is None and int(common.case_hash({k: v for k, v in c.items() if not k.startswith('_')}), 16) % 3 == 0:
+            # the same selector object has served another election before (as many candidates, other labels): no state may survive
+            ncand = len({x for b, _ in c['votes'] for i in b for x in ([i] if isinstance(i, int) else i)})
+            decoy = tuple('Z%d' % i for i in range(ncand))
+            try:
+                sel.evaluate({decoy: 5, decoy[:1]: 2 * ncand + 7}, c['n'])
+            except Exception:   # noqa
+                pass
+        res = sel.evaluate(votes, c['n'])
         return ok([[], [[cnum(x), 1] for x in res], 0])
     # no caps at all: the argument is left out (the signature's default is used), as a caller would
     res = dist.evaluate(votes, c['n'], max_seats={cname(k): v for k, v in c['caps']}) if c['caps'] else dist.evaluate(votes, c['n'])
@@ -140,6 +149,21 @@ def gen(rng, count, hare=False, boundary=False):
         yield c
 
 
+def gen_zero_weight(rng, count):
+    """ballots of weight 0: a candidate named only on such a ballot still stands (and is elected when the seats need everyone)"""
+    for c in gen(rng, count):
+        cs = sorted({x for b, _ in c['votes'] for i in b for x in ([i] if isinstance(i, int) else i)})
+        new = max(cs) + 1
+        r = rng.random()
+        b = [new] if r < 0.4 else [new] + rng.sample(cs, rng.randint(1, len(cs))) if r < 0.7 else rng.sample(cs, 1) + [new]
+        c['votes'] = c['votes'] + [[b, 0]]
+        if c['form'] == 'selector':
+            c['caps'] = c['caps'] + [[new, 1]]
+            if rng.random() < 0.5:
+                c['n'] = len(cs) + 1
+        yield c
+
+
 def corpus():
     import os, json, glob
     for p in sorted(glob.glob(os.path.join(common.VERIF, 'corpus', ID, '*.json'))):
@@ -151,6 +175,7 @@ def explore(ctx, widen=1):
     ctx.differential('corpus', corpus(), model_line, impl, **kw)
     ctx.differential('gregory', gen(ctx.rng, ctx.n(1200, 20000) * widen), model_line, impl, **kw)
     ctx.differential('gregory-boundary', gen(ctx.rng, ctx.n(800, 10000) * widen, boundary=True), model_line, impl, **kw)
+    ctx.differential('zero-weight', gen_zero_weight(ctx.rng, ctx.n(500, 6000) * widen), model_line, impl, **kw)
     # Hare (seeded): no model; outcome clauses and the C03 invariants on the implementation only
     hk = dict(canon=canon_hare, nontrivial=nontrivial, known_class=known_class, limit=20,
               spec=lambda c, io, mo: spec(c, io, mo) or c03.spec(dict(c, transferer=_hare(c)), io, mo))
